@@ -4,7 +4,7 @@
    recognises and whether the listing was clean). *)
 From Coq Require Import List Arith NArith Lia Bool.
 Import ListNotations.
-Require Import Verify VerifyBound.
+Require Import Verify VerifyBound NameClass.
 
 (* no group ever exceeds the per-group limit: over arbitrary histories of publishing runs, failed or killed runs and
    collections, with the limits changing from run to run, no group holds more recognised backups than the largest
@@ -48,5 +48,18 @@ Example C07_example :
   | None => False end.
 Proof. vm_compute. auto. Qed.
 
+(* which entries of the storage root are groups at all: a directory whose name is exactly a date in ASCII digits; in particular no
+   proper extension of a group name ("2020.01.02.old") is a group - it is an unexpected entry and blocks every deletion *)
+Theorem C07_group_name_exact : forall d s, classify_root d s = NRGroup ->
+  d = true /\ length s = 10%nat /\ (forall c, In c s -> is_ascii_digit c = true \/ c = DOT).
+Proof. exact group_name_exact. Qed.
+Check C07_group_name_exact : forall d s, classify_root d s = NRGroup ->
+  d = true /\ length s = 10%nat /\ (forall c, In c s -> is_ascii_digit c = true \/ c = DOT).
+Theorem C07_extended_group_name_is_foreign : forall d s t, t <> [] -> classify_root d s = NRGroup -> classify_root d (s ++ t) <> NRGroup.
+Proof. exact extended_group_name_is_foreign. Qed.
+Check C07_extended_group_name_is_foreign : forall d s t, t <> [] -> classify_root d s = NRGroup -> classify_root d (s ++ t) <> NRGroup.
+
 Print Assumptions C07_history_bounded.
 Print Assumptions C07_run_group_count.
+Print Assumptions C07_group_name_exact.
+Print Assumptions C07_extended_group_name_is_foreign.
